@@ -17,7 +17,7 @@ CONSTANTS
   MKeyAtoms = {%(mkeys)s}
   Enabled <- %(enabled)s
 VIEW View
-CONSTRAINT KeyLeavesSet
+CONSTRAINT Expand
 """
 
 
